@@ -166,6 +166,24 @@ pub fn c03(em: &mut Emit, thorough: bool, seed: u64) {
         // corpus lines are judged by the model comparison; the oracle needs an AST
         em.case(&serve_line(&q, &e, o.now), &o.show(), "ok", "corpus");
     }
+    // values no reading of the grammar accepts: ignored, a complete 200
+    for h in [
+        &b""[..], b"bytes", b"bytes=", b"bytes=,", b"bytes= , ,", b"bytes=\t", b"bytes=-", b"bytes=,-", b"bytes=0-1,-",
+        b"bytes=0-1;2-3", b"bytes=0-1,x", b"bytes=0 -1", b"octets=0-1", b"=0-1", b"bytes=0-1-2", b"bytes==0-1",
+    ] {
+        for len in [0u64, 10, 1000] {
+            let mut q = HReq::get();
+            q.range = Some(h.to_vec());
+            let e = HEntity::new(len);
+            let o = observe_serve(&q, &e);
+            let p = pred(
+                !o.panicked && o.status == 200 && o.header("content-range").is_none(),
+                || format!("outside the grammar but not ignored: {}", o.show()),
+            );
+            debug_assert_eq!(range_grammar(h), RangeGrammar::Outside);
+            em.case(&serve_line(&q, &e, o.now), &o.show(), &p, "outside-grammar");
+        }
+    }
     // exhaustive, small L
     let max_single = if thorough { 6 } else { 5 };
     let max_pair = if thorough { 4 } else { 2 };
@@ -252,12 +270,19 @@ pub fn c03(em: &mut Emit, thorough: bool, seed: u64) {
         q.range = Some(v.clone());
         let e = HEntity::new(len);
         let o = observe_serve(&q, &e);
-        let p = pred(!o.panicked, || "serve panicked".into());
+        let g = range_grammar(&v);
+        let p = if g == RangeGrammar::Outside {
+            pred(!o.panicked && o.status == 200 && o.header("content-range").is_none(), || {
+                format!("outside the grammar but not ignored: {}", o.show())
+            })
+        } else {
+            pred(!o.panicked, || "serve panicked".into())
+        };
         em.case(
             &serve_line(&q, &e, o.now),
             &o.show(),
             &p,
-            &format!("mal:{}", status_class(&o)),
+            &format!("mal:{:?}:{}", g, status_class(&o)),
         );
     }
 }
@@ -874,6 +899,8 @@ pub fn c14(em: &mut Emit, thorough: bool, seed: u64) {
             ("x-ent-a".into(), b"2".to_vec()),
             // what practically every real entity supplies
             ("content-type".into(), b"text/plain; charset=utf-8".to_vec()),
+            // obs-text (not UTF-8)
+            ("content-disposition".into(), b"attachment; filename=\"caf\xe9 \xff.txt\"".to_vec()),
         ],
     ];
     // (name, Range, method, entity length, send the entity's own ETag in If-Range)
